@@ -124,7 +124,28 @@ def run_malformed(s):
             S.problem(site, "NoteFormatError", e)
         else:
             S.problem(site, "NoteFormatError", {"returned": r})
-    S.trans(3)
+    # the other functions of the module are handed the same string (what they do with it is not stated and not
+    # judged); afterwards the string must still not be a note
+    for fn in (notes.remove_redundant_accidentals, notes.augment, notes.diminish, lambda x: notes.is_enharmonic(x, "C"),
+               lambda x: notes.is_enharmonic("C", x)):
+        try:
+            fn(s)
+        except Exception:                           # noqa
+            pass
+    v2 = notes.is_valid_note(s)
+    if v2:
+        S.problem("is_valid_note(%r) after the string was handed to the other functions of the module" % s, False, v2)
+    for fn in (notes.note_to_int, notes.reduce_accidentals):
+        try:
+            r = fn(s)
+        except NoteFormatError:
+            pass
+        except Exception as e:                      # noqa
+            S.problem("%s(%r) after the string was handed to the other functions of the module" % (fn.__name__, s), "NoteFormatError", e)
+        else:
+            S.problem("%s(%r) after the string was handed to the other functions of the module" % (fn.__name__, s),
+                      "NoteFormatError", {"returned": r})
+    S.trans(11)
     S.count("malformed")
     S.outcome((s[0] in P.NAT, bool(v)))
     if len(s) == 3:
